@@ -30,12 +30,18 @@ RESIDUALS = [
      "debug_assert!(acc.pack() != Scalar::ZERO): the documented precondition of batch_invert is that all inputs are non-zero (outside the documented domain otherwise)"),
     (r"field::<impl .*FieldElement\w+>::batch_invert$", r"^call:panic$", r"acc\.is_zero",
      "assert!(!acc.is_zero()): acc is the product of the inputs with zeros skipped, so it is never zero (algebraic fact, not an interval fact)"),
+    (r"packed_simd::u64x4 as core::ops::Sub>::sub::__Impl_sub__>::_impl_sub$", r"^lane:sub64$", r"^in ::_impl_negate_lazy$",
+     "A6 (IFMA, thorough tier only): F51x4Unreduced::negate_lazy subtracts the multiplier's output limbs from the limbs of 16p (2^55 - 304).  A true output limb of the "
+     "IFMA multiplier is below that, but its interval bound is 2^55 + 2^34 because the low and high 52-bit halves of one 104-bit product (madd52lo / madd52hi) are "
+     "bounded independently; relational, outside the interval domain.  The undocumented precondition is taken as an assumption"),
+    (r"packed_simd::u64x4 as core::ops::Add>::add::__Impl_add__>::_impl_add$", r"^lane:add64$", r"^in ifma::field::F51x4Unreduced as ::add::_impl_add$",
+     "A6 (consequence): the sum that follows the negate_lazy above sees its possibly-wrapped result as [0, 2^64)"),
     (r"window::NafLookupTable\d::<T>::select$", r"^call:panic$", r"^adt\{\}, &\(\(tuple",
      "A4: debug_assert_eq!(x & 1, 1): non-zero NAF digits are odd (established by the parity test in non_adjacent_form; parity of array contents is outside the interval domain)"),
 ]
 
 QUICK = [("simd", "u64"), ("serial32", "u32")]
-THOROUGH = QUICK + [("serial64", "u64"), ("notables-serial64", "u64")]
+THOROUGH = QUICK + [("serial64", "u64"), ("notables-serial64", "u64"), ("ifma", "u64")]
 
 
 def run(tier, R):
@@ -46,6 +52,8 @@ def run(tier, R):
     R.assume("A2: the Karatsuba Scalar29::mul_internal/square_internal outputs are the true column sums (wrapping intermediates cancel)")
     R.assume("A3: user-supplied iterators / slices behave as abstract collections of values satisfying the element invariant")
     R.assume("A4: non-zero NAF digits are odd (debug_assert_eq!(x & 1, 1) in NafLookupTable*::select)")
+    if tier != "quick":
+        R.assume("A6 (ifma configuration): the IFMA multiplier's output limbs are below the limbs of 16p, so negate_lazy does not wrap (two obligations, relational)")
     R.note("vector (AVX2 / IFMA) and fiat backends: see DESIGN.md section 9 for their status in this check")
     R.note("generic entry points (multiscalar Straus / Pippenger, Sum / Product folds, batch_invert, double_and_compress_batch, mul_bits_be) are analysed with abstract collections (A3); Pippenger is analysed once per window width (trace partitioning)")
     for (cfg, backend) in cfgs:
